@@ -17,7 +17,8 @@ func init() {
 		Explanation: "Decides: R1 who may add or delete imports (closed inventory) — astutil.AddNamedImport/AddImport is called only from ImportReplacer.Replace, astutil.DeleteNamedImport/DeleteImport only from ImportsReplacer.Cleanup, and File.Imports is written only there (reset to nil when empty); " +
 			"R2 only matched imports are deleted — the path handed to DeleteNamedImport is the current element of importsData.MatchedImports (filled by ImportsMatcher.Match with m.Path only after a true verdict), the call is reachable exactly under 'replaced by an added import' or 'name no longer used' (replaced || !usesNameAsTopLevel), the per-import lookup targets are fresh in every iteration, and usesNameAsTopLevel prunes the walk only below a selector whose operand is a plain identifier; " +
 			"R3 only '+' imports are added — AddNamedImport receives the replacer's own Path, every import replacer of the '+' side is run, and the name used is the captured one unless the metavariable matched an unnamed import; R4 printing never adds or removes imports (FormatOnly is the constant true at both imports.Process sites). " +
-			"R2 also: usesNameAsTopLevel gives no file-dependent answer before the walk (no shortcut through an index the parser built). NOT decided: the package-name guess for unnamed imports (filepath.Base of the path — a heuristic on strings; seed C11-5 changes it and is not detectable from the shape of the code); correctness of usesNameAsTopLevel as a use test (shadowing, Ident.Obj), astutil internals, grouping and comment placement.",
+			"R2 also: usesNameAsTopLevel gives no file-dependent answer before the walk (no shortcut through an index the parser built). NOT decided: the package-name guess for unnamed imports (filepath.Base of the path — a heuristic on strings; seed C11-5 changes it and is not detectable from the shape of the code); correctness of usesNameAsTopLevel as a use test (shadowing, Ident.Obj), astutil internals, grouping and comment placement." +
+			" R6 what ImportMatcher.Match records is the file's own import (its four-row decision table).",
 		Trusted:     append([]string{"astutil.AddNamedImport / DeleteNamedImport touch only the import they are given"}, commonTrusted...),
 		Assumptions: commonAssumptions,
 	})
